@@ -123,6 +123,17 @@ REGISTRY = {
         ],
         "require": {"backoff": 25000, "backoff:flat": 4871, "backoff:nonfinite": 5405, "backoff:reaches-T5": 4570, "c11:cut-beyond-exchange": 126, "c11:enumerated": 50, "c11:fault:cut-in": 275, "c11:fault:cut-out": 191, "c11:fault:linktest": 81, "c11:fault:peer-close": 73, "c11:fault:select-rejected": 45, "c11:fault:t6": 38, "c11:fault:t7": 46, "c11:fault:t8": 84, "c11:fault:write-timeout": 87, "c11:refusals:0": 339, "c11:refusals:1": 137, "c11:refusals:2": 129, "c11:refusals:3": 317, "c11:role:active": 466, "c11:role:passive": 458},
     },
+    "C19": {
+        "level": "exploration",
+        "claim": "Generated observation histories (probe outcome, receive stamps before/at/after the probe, in-flight counts at evaluation and re-check, thresholds 1-6, suppression on/off) folded through the library's real failure-accounting reducers exactly as the probe loop folds them and compared step by step with a reference model plus windowed history invariants; end to end, seven peer personalities against real connections in virtual time, where the number and instants of probes and the instant of the drop are compared exactly with what the suppression rules prescribe.",
+        "trust": "ref/fsm.Linktest is written from docs/guides/linktest-suppression.md; the fold replicates runLinktest's use of the two reducers (hook aliases in hsmsss/export_verif.go); end-to-end timing is exact only because time is virtual.",
+        "technique": "property-based testing (rapid): model-based differential on reducer histories + scripted peer personalities in testing/synctest",
+        "tests": [
+            {"name": "TestC19Reducers", "shards": 8, "shards_thorough": 16},
+            {"name": "TestC19Linktest", "shards": 8, "shards_thorough": 16},
+        ],
+        "require": {"c19b:alive-after-probe": 53, "c19b:answers": 62, "c19b:answers-then-silent": 55, "c19b:inbound-chatty": 45, "c19b:outbound-chatty": 42, "c19b:reply-outstanding": 39, "c19b:role:active": 184, "c19b:role:passive": 191, "c19b:silent": 77, "c19b:suppress:false": 188, "c19b:suppress:true": 187, "c19b:threshold:1": 100, "c19b:threshold:2": 101, "c19b:threshold:3": 83, "c19b:threshold:4": 91, "credited": 9119, "restart": 10356, "suppress:false": 12484, "suppress:true": 12515, "threshold:1": 5227, "threshold:2": 5148, "threshold:3": 3785, "threshold:4": 3787, "threshold:5": 3226, "threshold:6": 3824},
+    },
     "C13": {
         "level": "exploration",
         "claim": 'Generated messages over the stated item grammar x all encoder options round-tripped through the strict encoder and strict parser; parser-accepted texts produced by a grammar-directed text generator re-encoded and re-parsed.',
